@@ -135,4 +135,38 @@ META = {
         note=BASE_NOTE + "Shares C12's trusted translator. The end-to-end ordering translation -> ACL is observed on a running proxy, the interceptor chain itself is gRPC's.",
         technique="Lean 4 decision-logic theorems composed with C12's regenerated coverage theorem + model/implementation correspondence",
     ),
+    "C17": {'text': "Theorems for ALL byte strings, chains and stage outcomes: the model of Go's table-driven decoder accepts exactly the concatenations of "
+         "standard (RFC 3629) encodings of Unicode scalar values; Go's ToValidUTF8 (modelled from the go1.26 tables) returns valid input unchanged, "
+         'always returns valid UTF-8, is idempotent, keeps valid prefixes verbatim, and - strongest form - for THE (proved unique) decomposition of '
+         'the input into maximal valid segments and maximal runs of ill-formed bytes, outputs the valid segments in order with exactly one U+FFFD '
+         'per run; repairInvalidUTF8InFailure on chains of length <= 10 makes every message valid, leaves valid ones and the length untouched, and '
+         "reports an error beyond 10 (first ten still repaired); the codec's decision function is transparent when the delegate succeeds (repair "
+         "path never entered) and returns success only after a fully successful repair, otherwise the delegate's error. History blobs "
+         "(translateOneDataBlob): transparent on accepted blobs; the clause 'what cannot be repaired is reported as an error' is REFUTED for the "
+         'current code by a kernel-checked witness (invalid UTF-8 outside failure messages passes silently; reproduced on the real code on every '
+         "run, KNOWN-FINDING), proved under 'something was repairable' and for the fixed model. Tied to the real code: exhaustive comparison with "
+         "Go's functions, chains through the generated visitor, and the registered codec on legacy-schema wire bytes with an independent proto.Equal "
+         'monitor.',
+ 'design_ref': 'DESIGN.md §5 C17',
+ 'note': 'Trusted: Lean kernel; axioms propext/Classical.choice/Quot.sound only; the theorem statements; the Go harness (generators, canonicaliser) '
+         'that ties the hand-written model to /repo by differential execution on every run. Partial (C17_codec_faithful_partial): the protobuf wire '
+         'format is not modelled - that the legacy re-encoding of the repaired message is the input with only the failure messages sanitised is the '
+         'explicit round-trip hypothesis of C17_codec_faithful_of_roundtrip, validated by the harness (proto.Equal with the standard decode of a '
+         "sanitised copy) rather than proved. Modelled not verified: protobuf-go, gogo/protobuf, Temporal's serializer.",
+ 'technique': "Lean 4 theorems over an exact model of Go's UTF-8 decoding + decision-logic theorems + model/implementation correspondence on "
+              'legacy-schema wire bytes'},
+    "C18": {'text': 'Generic theorems for ALL values (any list lengths, any number of failures at once, chains up to depth 10): a visitor driven by a set of '
+         'structural path patterns repairs every failure whose pattern it knows, moves nothing else, and leaves a failure untouched exactly when its '
+         'pattern is missing. Finite obligation regenerated from /repo on every check and discharged by decide +kernel per chunk: every structural '
+         'path from every convertible root (and HistoryEvent, and every type with its own case) to a failure message - enumerated by reflection over '
+         'the legacy structs - is a path at which the real RepairInvalidUTF8 was observed to repair invalid UTF-8, or a finding recorded in '
+         'known_findings.json (none on the current tree, so C18_full holds by C18_full_iff_no_findings). Tied to the real code by exercising every '
+         '(root, path) and random combinations, with an independent reflection walk as monitor.',
+ 'design_ref': 'DESIGN.md §5 C18',
+ 'note': 'Trusted: Lean kernel; axioms propext/Classical.choice/Quot.sound only; the theorem statements; the Go harness (generators, canonicaliser) '
+         'that ties the hand-written model to /repo by differential execution on every run. Trusted in addition: the reflection walker that '
+         'enumerates the oracle (go/eng/repairpaths_test.go) and the labelling of concrete failure positions by path ids (list indices / map keys '
+         'abstracted to a wildcard). The generated Go visitor is not parsed: its pattern set is measured.',
+ 'technique': 'Lean 4 generic visitor theorems + regenerated finite obligation (decide +kernel) + exhaustive per-path measurement and random '
+              'combination runs on the real code'},
 }
